@@ -866,3 +866,58 @@ def rule_newref_same_tag(ctx):
                              "may be overwritten" % (rp, "/".join(sorted(set(defs[rp]))), c[1], tag))
     ctx.floor("NEWREFTAG", 5, n, "(uses of a reference obtained from Htagnewref)")
     return n
+
+
+class _SeekThenIO(PathAnalysis):
+    """user = frozenset of stream expressions (rendered) that have been positioned with fseek since they were opened"""
+
+    def __init__(self, prog):
+        super().__init__(prog)
+        self.sites = {}
+
+    def init_user(self, func):
+        return frozenset()
+
+    def on_stmt(self, func, bid, idx, stmt, env, user):
+        from .facts import kind, strip, render
+        u = set(user)
+        # assignments from fopen re-open a stream: not positioned any more
+        for x in walk(stmt["e"]):
+            if x[0] == "asg" and x[1] == "=" and any(y[0] == "call" and y[1] == "fopen" for y in walk(x[3], True)):
+                u.discard(render(strip(x[2])))
+        for x in walk(stmt["e"]):
+            if x[0] == "call" and x[1] == "fseek" and x[3]:
+                u.add(render(strip(x[3][0])))
+            elif x[0] == "call" and x[1] in ("fwrite", "fread") and len(x[3]) > 3:
+                st = render(strip(x[3][3]))
+                k = (x[1], st, stmt.get("l", 0))
+                self.sites[k] = self.sites.get(k, True) and (st in u)
+                u.discard(st)  # the transfer moves the stream: the next one needs its own seek
+        return frozenset(u)
+
+
+def rule_external_io_positioned(ctx):
+    """EXTSEEK (C04, C01): the data of an external element live at `extern_offset` in a file the library shares with nobody's
+    bookkeeping: the stream is opened, closed and re-opened at need, and nothing about its current position can be assumed.
+    Every transfer on the external stream in hextelt.c (fwrite / fread) is therefore preceded, on every path since the stream
+    was opened or last used, by an fseek on that same stream.  A transfer without its seek puts the bytes wherever the stream
+    happens to stand — at 0 for a freshly opened file — while the header goes on pointing at extern_offset."""
+    prog = ctx.prog
+    n = 0
+    for f in prog.lib_funcs():
+        if not f.rel.endswith("hdf/src/hextelt.c"):
+            continue
+        if not any(c[1] in ("fwrite", "fread") for _b, _i, _s, c in f.calls()):
+            continue
+        a = _SeekThenIO(prog)
+        a.fails = fail_values(f, prog)
+        a.run(f)
+        for i, ((call, st, line), ok) in enumerate(sorted(a.sites.items(), key=lambda kv: kv[0][2])):
+            n += 1
+            key = "EXTSEEK:%s#%d" % (f.name, i + 1)
+            if ok:
+                ctx.holds("EXTSEEK", key, f.where(line), "%s on `%s` follows an fseek on that stream on every path" % (call, st), nontrivial=True)
+            else:
+                ctx.violated("EXTSEEK", key, f.where(line), "%s on the external stream `%s` can be reached without an fseek on that stream since it was opened or last used: the bytes go to the stream's current position, not to the element's offset in the external file" % (call, st))
+    ctx.floor("EXTSEEK", 3, n, "(transfers on an external element's stream)")
+    return n
